@@ -7,7 +7,7 @@ from pathlib import Path
 from concurrent.futures import ThreadPoolExecutor
 
 VERIF = Path(__file__).resolve().parent.parent
-patch = sys.argv[1]
+patch = str(Path(sys.argv[1]).resolve())
 props = sys.argv[2:] or [c["property_id"] for c in json.loads((VERIF / "MANIFEST.json").read_text())["checks"]]
 st = subprocess.run(["git", "-C", "/repo", "status", "--porcelain", "--untracked-files=no"], capture_output=True, text=True).stdout.strip()
 if st:
